@@ -51,11 +51,44 @@ def fromstr_rule(F, rep, ty):
                     it = s["pat"]["name"]
                 elif a.get("k") == "Lit" and a.get("lit") == "str" and a["v"] == ".":
                     it = s["pat"]["name"]
-    rep.ob("FromStr.split", it is not None, fn, "split", "%s::from_str does not split its input on '.'" % ty)
-    if it is None:
-        return
     root = b["tir"]["value"]
+    env0 = tir.LetEnv(root)
+
+    def is_split_collect(e):
+        """`s.split('.').collect::<Vec<_>>()` (viewed as a slice): every piece of the input, in order"""
+        e = env0.resolve(e)
+        if e.get("k") == "MethodCall" and e["method"] == "collect" and not e.get("args"):
+            sp_ = env0.resolve(e["recv"])
+            if sp_.get("k") == "MethodCall" and sp_["method"] == "split" and (declared(sp_) or "").endswith("str::<impl str>::split") and L.local_name(sp_["recv"]) == sname:
+                a = strip(sp_["args"][0])
+                return (a.get("k") == "Lit" and a.get("lit") == "char" and a["v"] == ord(".")) or (a.get("k") == "Lit" and a.get("lit") == "str" and a["v"] == ".")
+        return False
+
+    def slice3(p):
+        """binding ids of a slice pattern that matches exactly three elements"""
+        while p.get("k") == "Ref":
+            p = p["pat"]
+        if p.get("k") == "Slice" and len(p.get("before", []) or []) == 3 and not p.get("mid") and not (p.get("after") or []) and all(q.get("k") == "Bind" for q in p["before"]):
+            return [q["id"] for q in p["before"]]
+        return None
+    slice_form = None
+    for x in tir.walk(root):
+        if x.get("k") == "Match" and is_split_collect(x["scrut"]):
+            slice_form = ("match", x)
+        elif x.get("k") == "Let" and x.get("els") is not None and is_split_collect(x.get("init") or {}):
+            slice_form = ("let", x)
+    rep.ob("FromStr.split", it is not None or slice_form is not None, fn, "split", "%s::from_str does not split its input on '.'" % ty)
+    if it is None and slice_form is None:
+        return
     lets = {x["pat"]["id"]: x for x in tir.walk(root) if x.get("k") == "Let" and x["pat"].get("k") == "Bind" and x.get("init") is not None}
+
+    def is_err(e):
+        e = L.strip_try(e)
+        if e.get("k") == "Ret":
+            e = L.strip_try(e.get("e") or {})
+        if e.get("k") == "Block" and not e.get("tail") and len(e.get("stmts", [])) == 1:
+            return is_err(e["stmts"][0].get("e") or {})
+        return e.get("k") == "Call" and (declared(e) or "").endswith("Err")
 
     def is_next_tuple(e):
         e = strip(e)
@@ -89,7 +122,23 @@ def fromstr_rule(F, rep, ty):
     names = None
     accept = None          # the expression evaluated when the shape matches
     other_err = True
-    for x in tir.walk(root):
+    if slice_form is not None:
+        kind, x = slice_form
+        n_next = 4           # exactly three pieces: the same condition as (Some, Some, Some, None) on successive next() calls
+        if kind == "match":
+            for a in x["arms"]:
+                ids = slice3(a["pat"])
+                if ids and not a.get("guard"):
+                    names, accept = ids, a["body"]
+                elif not is_err(a["body"]):
+                    other_err = False
+        else:
+            ids = slice3(x["pat"])
+            if ids:
+                names, accept = ids, root
+            if not is_err(x["els"]):
+                other_err = False
+    for x in (tir.walk(root) if slice_form is None else []):
         if x.get("k") == "Match" and is_next_tuple(x["scrut"]):
             n_next = is_next_tuple(x["scrut"])
             for a in x["arms"]:
